@@ -362,9 +362,23 @@ pub fn dot_completions(
 }
 
 fn normalize_completion_ty(ty: tast::Ty) -> tast::Ty {
-    match ty {
-        tast::Ty::TRef { elem } => normalize_completion_ty(*elem),
-        other => other,
+    // `r.x` / `r.m()` on a `Ref[T]` is not accepted by the type checker (there is no
+    // auto-dereference), so the members of `T` must not be offered for `r.`.
+    ty
+}
+
+// A method can be called as `x.m(..)` only if its first parameter takes the receiver.
+fn method_takes_receiver(method_ty: &tast::Ty, receiver_ty: &tast::Ty, by_constructor: bool) -> bool {
+    let tast::Ty::TFunc { params, .. } = method_ty else {
+        return false;
+    };
+    match params.first() {
+        None => false,
+        Some(first) if by_constructor => match (first, receiver_ty) {
+            (tast::Ty::TApp { ty: a, .. }, tast::Ty::TApp { ty: b, .. }) => a == b,
+            _ => false,
+        },
+        Some(first) => first == receiver_ty,
     }
 }
 
@@ -390,28 +404,36 @@ fn completions_for_type(genv: &GlobalTypeEnv, ty: &tast::Ty) -> Vec<DotCompletio
         .inherent_impls
         .get(&crate::env::InherentImplKey::Exact(ty.clone()))
     {
-        methods.extend(impl_def.methods.iter().map(|(method_name, method_scheme)| {
-            DotCompletionItem {
-                name: method_name.clone(),
-                kind: DotCompletionKind::Method,
-                detail: Some(method_scheme.ty.to_pretty(80)),
-            }
-        }));
+        methods.extend(
+            impl_def
+                .methods
+                .iter()
+                .filter(|(_, method_scheme)| method_takes_receiver(&method_scheme.ty, ty, false))
+                .map(|(method_name, method_scheme)| DotCompletionItem {
+                    name: method_name.clone(),
+                    kind: DotCompletionKind::Method,
+                    detail: Some(method_scheme.ty.to_pretty(80)),
+                }),
+        );
     }
-    if let tast::Ty::TApp { ty, .. } = ty {
-        let base_name = ty.get_constr_name_unsafe();
+    if let tast::Ty::TApp { ty: base_ty, .. } = ty {
+        let base_name = base_ty.get_constr_name_unsafe();
         if let Some(impl_def) = genv
             .trait_env
             .inherent_impls
             .get(&crate::env::InherentImplKey::Constr(base_name))
         {
-            methods.extend(impl_def.methods.iter().map(|(method_name, method_scheme)| {
-                DotCompletionItem {
-                    name: method_name.clone(),
-                    kind: DotCompletionKind::Method,
-                    detail: Some(method_scheme.ty.to_pretty(80)),
-                }
-            }));
+            methods.extend(
+                impl_def
+                    .methods
+                    .iter()
+                    .filter(|(_, method_scheme)| method_takes_receiver(&method_scheme.ty, ty, true))
+                    .map(|(method_name, method_scheme)| DotCompletionItem {
+                        name: method_name.clone(),
+                        kind: DotCompletionKind::Method,
+                        detail: Some(method_scheme.ty.to_pretty(80)),
+                    }),
+            );
         }
     }
     methods.sort_by(|a, b| a.name.cmp(&b.name));
@@ -500,7 +522,6 @@ fn type_constructor_name(ty: &tast::Ty) -> Option<&str> {
     match ty {
         tast::Ty::TEnum { name } | tast::Ty::TStruct { name } => Some(name.as_str()),
         tast::Ty::TApp { ty, .. } => type_constructor_name(ty),
-        tast::Ty::TRef { elem } => type_constructor_name(elem),
         _ => None,
     }
 }
